@@ -114,7 +114,7 @@ func computePorcelainEffects(p *Prog) *porcelainEffects {
 		})
 	}
 	// target resolvers refuse when the target does not exist
-	for _, n := range []string{"git.(*Worktree).getCommitFromCheckoutOptions", "git.(*Worktree).checkNewBranch"} {
+	for _, n := range []string{"git.(*Worktree).getCommitFromCheckoutOptions", "git.(*Worktree).checkNewBranch", "git.(*Repository).getTreeFromCommitHash"} {
 		if fi := p.Func(n); fi != nil {
 			if _, ok := e.ref[fi.Obj]; !ok {
 				e.ref[fi.Obj] = "resolves the checkout target (fails when it does not exist)"
@@ -339,6 +339,32 @@ func runC29(c *Ctx) {
 			return true
 		})
 		c.Check(ok && !direct, r2, resetFn.Name(), resetFn.Decl.Pos(), "Reset evaluates its refusals through resetRefusals, only when the caller has not done so, and returns no refusal of its own")
+		// resetRefusals covers Reset: whatever can still refuse inside Reset before its first mutation (target tree
+		// lookup …) is also evaluated by resetRefusals on every non-soft path, otherwise a caller that mutates after
+		// resetRefusals and then calls Reset(prechecked) can be refused late
+		soft := p.lookupObj("git", "SoftReset")
+		covered := map[*types.Func]bool{}
+		walkCalls(resetFn.Decl.Body, false, func(call *ast.CallExpr) {
+			fn := Callee(info, call)
+			if fn == nil || fn == refusalsFn.Obj {
+				return
+			}
+			if _, isRef := eff.ref[fn]; !isRef || covered[fn] {
+				return
+			}
+			covered[fn] = true
+			rfFlow := p.FlowOf(refusalsFn)
+			pass := ErrGuard(func(_ *Flow, cc *ast.CallExpr) bool { return Callee(info, cc) == fn })
+			softEdge := FactGuard(func(_ *Flow, fact Fact) bool {
+				be, ok := unparen(fact.Atom).(*ast.BinaryExpr)
+				return ok && usesObj(info, be, soft) && (be.Op == token.EQL) == fact.Truth
+			})
+			h := rfFlow.Search(SearchOpts{Starts: []Loc{rfFlow.Entry()}, Sink: func(n ast.Node) bool {
+				r, ok := n.(*ast.ReturnStmt)
+				return ok && len(r.Results) == 1 && isNil(info, r.Results[0])
+			}, BlockEdge: func(b *cfg.Block, i int) bool { return pass(rfFlow, b, i) || softEdge(rfFlow, b, i) }})
+			c.Check(h == nil, r2, refusalsFn.Name()+":covers:"+fn.Name(), call.Pos(), orStr(ifStr(h != nil, "Reset can still fail in "+fn.Name()+" ("+eff.ref[fn]+") but resetRefusals succeeds without evaluating it: a caller that mutates in between is refused late"), "also evaluated by resetRefusals on every non-soft path"))
+		})
 		// resetRefusals itself mutates nothing
 		_, mutates := eff.mut[refusalsFn.Obj]
 		c.Check(!mutates, r2, refusalsFn.Name()+":pure", refusalsFn.Decl.Pos(), orStr(ifStr(mutates, "resetRefusals mutates: "+eff.mut[refusalsFn.Obj]), "resetRefusals reaches no mutating call"))
